@@ -93,6 +93,7 @@ def run():
     from props import _sym as _symmod
     from props._util import section as _section
     _section(rep, "dataset", lambda: _symmod.dataset_section(rep))
+    _section(rep, "getters", lambda: _symmod.public_getters_section(rep))
     return rep
 
 
